@@ -23,6 +23,19 @@ def load_expected():
         return set()
 
 
+def add_evaluated(run, ded, items, func):
+    """finite obligations decided by evaluation over the real module's constants: [(id, holds, text, witness)]"""
+    for oid, holds, text, witness in items:
+        ded["obligations"] += 1
+        if holds:
+            ded["discharged"] += 1
+            ded["by_backend"]["evaluation"] = ded["by_backend"].get("evaluation", 0) + 1
+        else:
+            run.failure("%s/%s" % (func, oid), "evaluated obligation %s fails: %s (%r)" % (oid, text, witness),
+                        {"kind": "evaluation", "func": func, "clause": text, "input": witness})
+    return ded
+
+
 def run_deductive(run, keys, budget=None, only=None):
     """returns dict for the evidence file; reports failures on `run`"""
     budget = budget or (10 if run.tier == "quick" else 40)
